@@ -67,7 +67,7 @@ def run(prop, family, t, tier, rule_extra=''):
             if missing:
                 rep.fail(f"{r['sig']} @ {labels[ci]}", r['atoms'],
                          dict(sig=r['sig'], cfg=labels[ci], truth=sorted(tr), reported=sorted(got), missing=missing,
-                              panic=res['Panic'], err=res['Err'][:300], replay=f"{V}/run replay-taint '{r['sig']}'"),
+                              panic=res['Panic'], err=res['Err'][:300], replay=f"{V}/bin/vp taint-one -sig '{r['sig']}'"),
                          cfg=labels[ci])
         if len(samples) < 6 and r['idx'] % max(1, nprog // 6) == 0:
             samples.append(dict(sig=r['sig'], truth=sorted(tr), reported_default=r['results'][0]['Flows']))
